@@ -62,9 +62,9 @@ class Check(BaseCheck):
         return fails
 
     def search_cases(self):
-        for c in gen.tria_stream(self.seed + 1, 40 if self.quick else 300, "small"):
+        for k, c in enumerate(gen.tria_stream(self.seed + 1, 40 if self.quick else 300, "small")):
             for lump in (False, True):
-                yield corr_fem.case_dict("tri", c["v"], c["t"], lump=lump, name=c["name"])
+                yield corr_fem.case_dict("tri", c["v"] * corr_fem.SCALES[k % len(corr_fem.SCALES)], c["t"], lump=lump, dt="f64", name=c["name"])
         for c in gen.tet_stream(self.seed + 1, 12 if self.quick else 100, "small"):
             for lump in (False, True):
                 yield corr_fem.case_dict("tet", c["v"], c["t"], lump=lump, name=c["name"])
